@@ -69,3 +69,13 @@ Example ex_eagain_runs_hyps :
   connected (crun [] (init str) ex_iso_trace) = true /\
   length (wire (crun [] (init str) ex_iso_trace)) = 300%nat.
 Proof. vm_compute. repeat split; reflexivity. Qed.
+
+(* a line of 1000 bytes (> 512), cut after 600 bytes: 600 unterminated bytes wait
+   in the buffer, then the whole line is delivered *)
+Example ex_long_line :
+  let line := repeat 120 1000 in
+  let cs := [repeat 120 600; repeat 120 400 ++ [10]] in
+  length line = 1000%nat /\ mem 10 line = false /\ concat cs = line ++ [10] /\
+  length (inbuffer (crun [] (init str) (reads [repeat 120 600]))) = 600%nat /\
+  delivered (crun [] (init str) (reads cs)) = [line].
+Proof. vm_compute. repeat split; reflexivity. Qed.
